@@ -65,6 +65,14 @@ impl L1 {
 
 const CIPHERS: [&str; 3] = ["aes128", "aes256", "chacha20"];
 
+/// activity of the real code under test in this run (part of every evidence file)
+fn absorb_activity(l: &mut L1, p: &Pair) {
+    l.count_n("real_seals", p.activity[0]);
+    l.count_n("real_handshakes_completed", p.activity[1]);
+    l.count_n("real_keys_rotated", p.activity[2]);
+    l.count_n("real_peer_crypto_operations", p.step);
+}
+
 fn counter_of(nonce: &[u8; 12]) -> u128 {
     let mut v = 0u128;
     for b in &nonce[1..] {
@@ -255,6 +263,7 @@ fn c03_inner(l: &mut L1, seed: u64, ctx: &RunCtx) -> Result<(), Violation> {
     if gens > 1 {
         l.count("c03_runs_across_key_rotation");
     }
+    absorb_activity(l, &p);
     Ok(())
 }
 
@@ -406,6 +415,14 @@ impl SealLog {
                     }
                 }
                 Event::NonceStart { nonce, key_fp } => {
+                    // the two ends of one key take opposite halves already when they install it
+                    let other = if *who == 'A' { 'B' } else { 'A' };
+                    if let Some(o) = self.start_of.get(&(other, *key_fp)) {
+                        l.count("c04_key_installed_at_both_ends");
+                        if o[0] == nonce[0] {
+                            return Err(Violation::new("nonce-halves", "both-ends-same-nonce-half", format!("both ends installed key {:016x} with the same nonce half {:02x}", key_fp, nonce[0])));
+                        }
+                    }
                     self.starts.push(*nonce);
                     self.start_of.insert((*who, *key_fp), *nonce);
                     self.last.remove(&(*who, *key_fp));
@@ -496,7 +513,13 @@ fn lifetime(l: &mut L1, seed: u64, ctx: &RunCtx, c07_focus: bool) -> Result<(), 
     }
     // the generator's bytes must be what the keys start with (checked below through NonceStart probes)
     let mut rot: Vec<(char, Vec<u8>, u64)> = vec![]; // (to, datagram, not before step)
-    let total_ticks = match (ctx.tier, c07_focus) {
+    // one run in fifty is a long lifetime: more than 128 rotation cycles per end (message ids beyond 255)
+    let long = l.ch.chance("long_lifetime", 20);
+    if long {
+        l.count("c07_long_lifetimes");
+    }
+    let total_ticks = match (ctx.tier, long) {
+        (_, true) => 16_000 + l.ch.choose("ticks_long", 6000) as u64,
         (Tier::Quick, _) => 300 + l.ch.choose("ticks", 1200) as u64,
         (Tier::Thorough, _) => 300 + l.ch.choose("ticks", 3700) as u64,
     };
@@ -639,6 +662,7 @@ fn lifetime(l: &mut L1, seed: u64, ctx: &RunCtx, c07_focus: bool) -> Result<(), 
         counter_limit(l, &mut p, &mut log)?;
     }
     l.states.push(log.seen.len() as u64 ^ (key_changes.values().map(|v| v.len() as u64).sum::<u64>() << 32));
+    absorb_activity(l, &p);
     Ok(())
 }
 
@@ -858,6 +882,7 @@ fn negotiate(l: &mut L1, seed: u64, la: &[&str], lb: &[&str], sa: [f32; 3], sb: 
             }
         }
     }
+    absorb_activity(l, &p);
     Ok((ca, cb, errs, edited_rejected))
 }
 
@@ -967,8 +992,24 @@ pub fn c05_sweep_size(tier: Tier) -> u64 {
 }
 
 pub fn c05(seed: u64, ch: Chooser, ctx: &RunCtx, l1_index: u64) -> RunOut {
+    c05_for(seed, ch, ctx, l1_index, false)
+}
+
+/// the handshake schedules of C05 with the seal-log oracles of C04 (`for_c04`) or the agreement oracles of C05
+pub fn c05_for(seed: u64, ch: Chooser, ctx: &RunCtx, l1_index: u64, for_c04: bool) -> RunOut {
     let mut l = L1::new(ch, ctx);
-    let res = c05_inner(&mut l, seed, ctx, l1_index);
+    let res = match c05_inner(&mut l, seed, ctx, l1_index) {
+        Err(v) => {
+            let is_c04 = v.oracle.starts_with("nonce-") || v.oracle == "counter-limit";
+            if is_c04 == for_c04 || v.oracle == "no-panic" || v.oracle == "setup" {
+                Err(v)
+            } else {
+                l.count("foreign_observations");
+                Ok(())
+            }
+        }
+        Ok(()) => Ok(()),
+    };
     let nt = l.counters.get("c05_l1_completions").copied().unwrap_or(0) > 0;
     l.finish(res, nt)
 }
@@ -985,7 +1026,9 @@ fn c05_inner(l: &mut L1, seed: u64, ctx: &RunCtx, l1_index: u64) -> Result<(), V
     l.count(if sweep { "c05_l1_sweep_runs" } else { "c05_l1_random_runs" });
     let mut idx = l1_index;
     let mut checked_pairs: BTreeSet<(u32, u32)> = BTreeSet::new();
+    let mut seal_log = SealLog::new();
     for _ in 0..steps {
+        seal_log.absorb(l, &p)?;
         // alphabet: 0 A initiates, 1 B initiates, 2 deliver oldest, 3 deliver any, 4 deliver a duplicate,
         // 5 drop, 6 tick A, 7 tick B
         let op = if sweep {
@@ -1130,5 +1173,6 @@ fn c05_inner(l: &mut L1, seed: u64, ctx: &RunCtx, l1_index: u64) -> Result<(), V
         }
     }
     l.states.push(p.a.completions.len() as u64 * 64 + p.b.completions.len() as u64);
+    absorb_activity(l, &p);
     Ok(())
 }
